@@ -24,13 +24,25 @@ type c14PtrErr struct{ msg string }
 
 func (e *c14PtrErr) Error() string { return e.msg }
 
+type c14EmptyErr struct{}
+
+func (c14EmptyErr) Error() string { return "boom-empty-struct" }
+
+type c14Errno int
+
+func (e c14Errno) Error() string { return fmt.Sprintf("boom-errno-%d", int(e)) }
+
+type c14StrErr string
+
+func (e c14StrErr) Error() string { return "boom-strerr:" + string(e) }
+
 var c14Shapes = []string{"string", "[]byte", "error", "(int,string)/fast", "(int,string)/reflect", "(int,[]byte)", "(int,error)", "(string,error)", "([]byte,error)", "*string", "*[]byte"}
 
 type c14Vals struct {
 	S    string `json:"string"`
 	B    []byte `json:"bytes"`
 	BNil bool   `json:"bytes_nil"`
-	Err  string `json:"error_kind"` // "nil", "errors.New", "struct", "pointer"
+	Err  string `json:"error_kind"` // "nil", "errors.New", "struct", "pointer", "empty-struct", "zero-int", "empty-string-kind"
 	Code int    `json:"status"`
 	PNil bool   `json:"pointer_nil"`
 }
@@ -54,6 +66,12 @@ func (w *c14World) err() error {
 		return c14ValErr{"boom-struct"}
 	case "pointer":
 		return &c14PtrErr{"boom-pointer"}
+	case "empty-struct": // non-nil errors whose concrete value is the zero value of its type
+		return c14EmptyErr{}
+	case "zero-int":
+		return c14Errno(0)
+	case "empty-string-kind":
+		return c14StrErr("")
 	}
 	return nil
 }
@@ -281,7 +299,7 @@ func c14Values(shape string, thorough bool) []c14Vals {
 	for b := 0; b < 256; b++ {
 		strs = append(strs, string([]byte{byte(b)}))
 	}
-	errs := []string{"nil", "errors.New", "struct", "pointer"}
+	errs := []string{"nil", "errors.New", "struct", "pointer", "empty-struct", "zero-int", "empty-string-kind"}
 	codes := []int{200}
 	hasInt := strings.HasPrefix(shape, "(int")
 	if hasInt {
